@@ -1585,3 +1585,36 @@ mod tests {
         }
     }
 }
+
+#[cfg(prometheus_verif)]
+impl Histogram {
+    /// Verification hook: symbolic names and addresses of every synchronisation cell.
+    pub fn verif_cells(&self) -> Vec<(String, usize)> {
+        let c = &self.core;
+        let mut v = vec![
+            ("lock".to_owned(), c.collect_lock.addr()),
+            ("sc".to_owned(), c.shard_and_count.inner.addr()),
+        ];
+        for (s, sh) in c.shards.iter().enumerate() {
+            v.push((format!("cnt{}", s), sh.count.verif_inner().addr()));
+            v.push((format!("sum{}", s), sh.sum.verif_inner().addr()));
+            for (i, b) in sh.buckets.iter().enumerate() {
+                v.push((format!("bkt{}_{}", s, i + 1), b.verif_inner().addr()));
+            }
+        }
+        v
+    }
+    /// Verification hook: unreported read of every cell (sc raw, then per shard count, sum bits, buckets).
+    pub fn verif_peek(&self) -> Vec<u64> {
+        let c = &self.core;
+        let mut v = vec![c.shard_and_count.inner.peek()];
+        for sh in c.shards.iter() {
+            v.push(sh.count.verif_inner().peek());
+            v.push(sh.sum.verif_inner().peek());
+            for b in sh.buckets.iter() {
+                v.push(b.verif_inner().peek());
+            }
+        }
+        v
+    }
+}
